@@ -20,6 +20,11 @@
 (*     mode: "all012" every flip set of size <= 2 over the w positions,    *)
 (*           "all01"  every flip set of size <= 1,  "none" only f = <<>>,  *)
 (*           "sample" some flip sets of size <= 2                          *)
+(*           "unit"   data is a unit vector; nothing flipped, the parity   *)
+(*                    position alone, and every position at which the code *)
+(*                    word carries a 1, each alone                         *)
+(*     ref: for en = 0 the index of the first en = 0 group of the same k   *)
+(*          that holds all single flips (the wires are read off it), else 0*)
 (*   [k, mode |-> "lin", a, b, c, ea, eb, ec, e0]  encoder outputs for     *)
 (*     data a, b, c = a xor b and 0                                        *)
 (*   [k, mode |-> "summary", cls]     asks for the coverage verdict of k   *)
@@ -39,7 +44,16 @@
 (*   (3) the encoder is affine (clause EncoderAffine on recorded pairs),   *)
 (* give for ANY data d and flip set F: syndrome, parity, hence flags and   *)
 (* flipped position are those of (0, F), and the output is d xor (the      *)
-(* output error of (0, F)), which (1) shows to be 0 for |F| <= 1.  The     *)
+(* output error of (0, F)), which (1) shows to be 0 for |F| <= 1.          *)
+(* AUDIT: "no flags" for an unmodified code word only shows a zero         *)
+(* syndrome (the decoder raises no flag for syndrome 0 whatever the overall*)
+(* parity is), so (2) needs at least one single flip off the parity        *)
+(* position per unit vector: sec = 1 there shows that the received word    *)
+(* had odd, i.e. the code word of e_i even overall parity.  Mode "unit"    *)
+(* records these; it also flips every 1 bit of every unit code word, so    *)
+(* that each code word position is hit in both polarities (0 -> 1 on data  *)
+(* 0, 1 -> 0 here: clause Coverage, OnesFlipped) - a decoder that sets or  *)
+(* clears instead of toggling is not linear and invisible on data 0.  The  *)
 (* structural assumption itself is probed by random data words x random    *)
 (* flip sets that are judged directly (mode sample).                       *)
 (***************************************************************************)
@@ -68,7 +82,7 @@ VARIABLES tid, l
 vars == <<tid, l>>
 
 Gp == T[tid]
-HasRuns(g) == g.mode \in {"all012", "all01", "none", "sample"}
+HasRuns(g) == g.mode \in {"all012", "all01", "none", "sample", "unit"}
 NRuns(g) == IF HasRuns(g) THEN Len(g.runs) ELSE 0
 
 (* every (group, case) pair is an initial state of its own: a counterexample is one state *)
@@ -84,6 +98,16 @@ Ded == Run[4]
 
 ---------------------------------------------------------------------------
 (* harness obligations: the recorded file is what it claims to be *)
+(* all01 / all012: run 1 flips nothing, run p + 2 flips position p alone *)
+SinglesInOrder(g) == g.runs[1][1] = <<>> /\ \A p \in 0..(g.w - 1) : g.runs[p + 2][1] = <<p>>
+HoldsSingles(g) == HasRuns(g) /\ g.mode \in {"all01", "all012"}
+
+(* the group the wires of the disabled decoder are read off: the first en = 0 group of width k *)
+(* with all single flips (0 if there is none)                                                  *)
+FirstRef(k) == LET C == {i \in 1..Len(T) : HoldsSingles(T[i]) /\ T[i].k = k /\ T[i].en = 0}
+               IN IF C = {} THEN 0 ELSE CHOOSE i \in C : \A j \in C : i <= j
+RefLegal(g) == HasRuns(g) => IF g.en = 0 THEN g.ref # 0 /\ g.ref = FirstRef(g.k) ELSE g.ref = 0
+
 GroupLegal(g) ==
   CASE HasRuns(g) ->
          /\ g.k >= 1 /\ g.w > g.k /\ g.en \in {0, 1}
@@ -92,10 +116,16 @@ GroupLegal(g) ==
               /\ IsWord(g.runs[i][1], g.w) /\ Len(g.runs[i][1]) <= 2
               /\ IsWord(g.runs[i][2], g.k)
               /\ g.runs[i][3] \in {0, 1} /\ g.runs[i][4] \in {0, 1}
+         /\ g.ref \in 0..Len(T)
          /\ Cardinality({g.runs[i][1] : i \in 1..Len(g.runs)}) = Len(g.runs)     \* flip sets distinct
-         /\ CASE g.mode = "all012" -> Len(g.runs) = 1 + g.w + (g.w * (g.w - 1)) \div 2
+         /\ CASE g.mode = "all012" -> /\ Len(g.runs) = 1 + g.w + (g.w * (g.w - 1)) \div 2
+                                      /\ SinglesInOrder(g)
               [] g.mode = "all01"  -> /\ Len(g.runs) = 1 + g.w
                                       /\ \A i \in 1..Len(g.runs) : Len(g.runs[i][1]) <= 1
+                                      /\ SinglesInOrder(g)
+              [] g.mode = "unit"   -> /\ Len(g.data) = 1 /\ g.en = 1
+                                      /\ {g.runs[i][1] : i \in 1..Len(g.runs)} =
+                                           {<<>>, <<ParityPos>>} \cup {<<p>> : p \in ToSet(g.cw)}
               [] g.mode = "none"   -> Len(g.runs) = 1 /\ g.runs[1][1] = <<>>
               [] OTHER             -> Len(g.runs) >= 1
     [] g.mode = "lin" ->
@@ -103,7 +133,7 @@ GroupLegal(g) ==
          /\ ToSet(g.c) = SymDiff(ToSet(g.a), ToSet(g.b))
     [] g.mode = "summary" -> g.cls \in {"small", "mid", "big"}
     [] OTHER -> FALSE
-EnvLegal == l = 1 => GroupLegal(Gp)
+EnvLegal == l = 1 => GroupLegal(Gp) /\ RefLegal(Gp)
 
 ---------------------------------------------------------------------------
 (* the property, case by case *)
@@ -132,6 +162,30 @@ DisabledPassThrough ==
     /\ (Len(F) = 0 => O = Gp.data)
     /\ Cardinality(SymDiff(ToSet(O), ToSet(Gp.data))) <= Len(F)
 
+(* AUDIT: DisabledPassThrough only bounds HOW MANY output bits may differ.  "Pass through       *)
+(* unchanged" means that the disabled decoder is wiring: every output bit is one fixed code     *)
+(* word bit.  Read off a group with all single flips: exactly k of the w positions reach the    *)
+(* output, each a different output bit (so a flipped data bit is NOT silently corrected and a   *)
+(* flipped check / parity bit touches nothing) ...                                              *)
+OutDiff(g, j) == SymDiff(ToSet(g.runs[j][2]), ToSet(g.data))
+DisabledWiring ==
+  l = 1 /\ HoldsSingles(Gp) /\ Gp.en = 0 =>
+    LET Hit == {p \in 0..(Gp.w - 1) : Gp.runs[p + 2][2] # Gp.data}
+    IN /\ Cardinality(Hit) = Gp.k
+       /\ \A p \in Hit : Cardinality(OutDiff(Gp, p + 2)) = 1
+       /\ UNION {OutDiff(Gp, p + 2) : p \in Hit} = 0..(Gp.k - 1)
+
+(* ... and the wires are the same for every data word and add up for two flips: the output      *)
+(* error of every en = 0 case is the sum of the wires (read off the reference group of the      *)
+(* width) of the flipped positions                                                              *)
+Wire(p) == OutDiff(T[Gp.ref], p + 2)
+DisabledSameWires ==
+  Judged /\ Gp.en = 0 =>
+    SymDiff(ToSet(O), ToSet(Gp.data)) =
+      CASE Len(F) = 0 -> {}
+        [] Len(F) = 1 -> Wire(F[1])
+        [] OTHER      -> SymDiff(Wire(F[1]), Wire(F[2]))
+
 (* the encoder is affine over GF(2):  E(a xor b) = E(a) xor E(b) xor E(0) *)
 EncoderAffine ==
   l = 1 /\ Gp.mode = "lin" =>
@@ -144,6 +198,12 @@ Has(k, data, en, modes) == \E i \in GroupsOf(k) : ToSet(T[i].data) = data /\ T[i
 Evens(k) == {i \in 0..(k - 1) : i % 2 = 0}
 FullWords(k, en) == {ToSet(T[i].data) : i \in {j \in GroupsOf(k) : T[j].en = en /\ T[j].mode = "all012"}}
 SampleWords(k) == {ToSet(T[i].data) : i \in {j \in GroupsOf(k) : T[j].en = 1 /\ T[j].mode = "sample" /\ Len(T[j].runs) >= 40}}
+(* positions that were flipped alone (en = 1) while the code word carried a 1 there *)
+OnesFlipped(k) ==
+  UNION {LET g == T[i] cws == ToSet(T[i].cw)
+         IN {g.runs[j][1][1] : j \in {jj \in 1..Len(g.runs) : Len(g.runs[jj][1]) = 1 /\ g.runs[jj][1][1] \in cws}}
+         : i \in {ii \in GroupsOf(k) : T[ii].en = 1}}
+WidthOf(k) == T[CHOOSE i \in GroupsOf(k) : TRUE].w
 LinCount(k) == Cardinality({i \in 1..Len(T) : T[i].k = k /\ T[i].mode = "lin" /\ T[i].a # T[i].b /\ T[i].a # <<>> /\ T[i].b # <<>>})
 
 Covered(k, cls) ==
@@ -157,7 +217,8 @@ Covered(k, cls) ==
     [] cls = "big" ->
          /\ Has(k, {}, 1, {"all012"})
          /\ Has(k, {}, 0, {"all01", "all012"})
-         /\ \A i \in 0..(k - 1) : Has(k, {i}, 1, {"none", "all01", "all012"})
+         /\ \A i \in 0..(k - 1) : Has(k, {i}, 1, {"unit", "all01", "all012"})
+         /\ OnesFlipped(k) = 0..(WidthOf(k) - 1)
          /\ Cardinality(SampleWords(k) \ {{}}) >= 3
          /\ LinCount(k) >= 8
     [] OTHER -> FALSE
